@@ -17,8 +17,8 @@ import copy
 
 
 def _pure_subject(e):
-    # the subject is evaluated once: anything but a bare name goes through a temporary
-    return isinstance(e, ast.Name)
+    # the subject is evaluated once: anything but a bare name or a plain field of self (`self.kind`) goes through a temporary
+    return isinstance(e, ast.Name) or (isinstance(e, ast.Attribute) and isinstance(e.value, ast.Name) and e.value.id == "self")
 
 
 def _test(p, subj, binds):
@@ -107,11 +107,8 @@ class _Desugar(ast.NodeTransformer):
             ast.fix_missing_locations(x)
         return out
 
-    def visit_If(self, node):
-        self.generic_visit(node)
-        # if (m := E) <rest of test>:  ->  m = E; if m <rest>:   (the walrus must be the first thing the test evaluates)
-        t = node.test
-        first = t
+    @staticmethod
+    def _first_evaluated(first):
         while True:
             if isinstance(first, ast.Compare):
                 first = first.left
@@ -119,6 +116,10 @@ class _Desugar(ast.NodeTransformer):
                 first = first.values[0]
             elif isinstance(first, ast.UnaryOp):
                 first = first.operand
+            elif isinstance(first, ast.IfExp):
+                first = first.test
+            elif isinstance(first, ast.BinOp):
+                first = first.left
             elif isinstance(first, ast.Call) and first.args and isinstance(first.func, ast.Name):
                 first = first.args[0]
             elif isinstance(first, ast.Call) and isinstance(first.func, ast.Attribute):
@@ -126,7 +127,48 @@ class _Desugar(ast.NodeTransformer):
             elif isinstance(first, (ast.Attribute, ast.Subscript)):
                 first = first.value
             else:
-                break
+                return first
+
+    def _hoist_from_value(self, node):
+        """x = <expr that evaluates (m := E) first>  ->  m = E; x = <expr with m>   (assignments to names, returns, expression statements)"""
+        v = node.value
+        if v is None:
+            return node
+        if isinstance(node, ast.Assign) and not all(isinstance(t, ast.Name) for t in node.targets):
+            return node   # a subscript / attribute target may be evaluated before the value
+        first = self._first_evaluated(v)
+        if isinstance(first, ast.NamedExpr) and isinstance(first.target, ast.Name) and first is not v:
+            others = [n for n in ast.walk(v) if isinstance(n, ast.NamedExpr) and n is not first]
+            if not others:
+                assign = ast.copy_location(ast.Assign(targets=[ast.Name(id=first.target.id, ctx=ast.Store())], value=first.value), node)
+                name = ast.copy_location(ast.Name(id=first.target.id, ctx=ast.Load()), first)
+
+                class R(ast.NodeTransformer):
+                    def visit_NamedExpr(self, n):
+                        return name if n is first else n
+
+                node.value = R().visit(v)
+                ast.fix_missing_locations(assign)
+                return [assign, node]
+        return node
+
+    def visit_Assign(self, node):
+        self.generic_visit(node)
+        return self._hoist_from_value(node)
+
+    def visit_Return(self, node):
+        self.generic_visit(node)
+        return self._hoist_from_value(node)
+
+    def visit_Expr(self, node):
+        self.generic_visit(node)
+        return self._hoist_from_value(node)
+
+    def visit_If(self, node):
+        self.generic_visit(node)
+        # if (m := E) <rest of test>:  ->  m = E; if m <rest>:   (the walrus must be the first thing the test evaluates)
+        t = node.test
+        first = self._first_evaluated(t)
         if isinstance(first, ast.NamedExpr) and isinstance(first.target, ast.Name):
             others = [n for n in ast.walk(t) if isinstance(n, ast.NamedExpr) and n is not first]
             if not others:
